@@ -616,6 +616,23 @@ func (ex *Exec) swapCells(arr *Object, i, j int, c *Term) {
 	arr.val = ArrayV{E: ne}
 }
 
+// Sorting is an exchange sort over the physical cells of the window: cells j < k are swapped
+// when both belong to the slice and less(k, j). For a comparator that is a strict weak order
+// this yields the sorted sequence of the present cells (holes stay where they are); any
+// correct sort agrees with it up to the order of equal elements.
+func (ex *Exec) sortWindow(st SliceT, g *Term, less func(k, j int, gg *Term) *Term) {
+	n := st.phys()
+	for j := 0; j < n; j++ {
+		for k := j + 1; k < n; k++ {
+			gg := And(g, st.presAt(j), st.presAt(k))
+			if gg.IsFalse() {
+				continue
+			}
+			ex.swapCells(st.Arr, st.Off+j, st.Off+k, And(gg, less(k, j, gg)))
+		}
+	}
+}
+
 func mSortSlice(ex *Exec, c *callCtx) Value {
 	x := c.args[0].(RefV)
 	less := c.args[1]
@@ -627,25 +644,14 @@ func mSortSlice(ex *Exec, c *callCtx) Value {
 	sig := types.NewSignatureType(nil, nil, nil, types.NewTuple(types.NewVar(0, nil, "i", types.Typ[types.Int]), types.NewVar(0, nil, "j", types.Typ[types.Int])), types.NewTuple(types.NewVar(0, nil, "", types.Typ[types.Bool])), false)
 	for _, a := range sl.Alts {
 		st := a.Tgt.(SliceT)
-		n := st.Cap
-		if ub, ok := termUpper(st.Len); ok && ub < n {
-			n = ub
-		}
-		g := And(c.guard, a.C)
-		for pass := 0; pass < n-1; pass++ {
-			for j := 0; j+1 < n-pass; j++ {
-				in := BVCmp("bvslt", BVC(int64(j+1), 64), st.Len)
-				gg := And(g, in)
-				if gg.IsFalse() {
-					continue
-				}
-				r := ex.callValue(less, []Value{IntV{BVC(int64(j+1), 64), true}, IntV{BVC(int64(j), 64), true}}, gg, c.pos, sig)
-				ex.swapCells(st.Arr, st.Off+j, st.Off+j+1, And(gg, r.(BoolV).T))
-			}
-		}
-	}
-	if c.fr != nil {
-		// callValue clobbers nothing in the caller frame, guard stays
+		ex.physIndex[st.Arr] = true
+		ex.sortWindow(st, And(c.guard, a.C), func(k, j int, gg *Term) *Term {
+			// indices are physical here: the comparator's x[i] resolves to cell i
+			off := 0
+			r := ex.callValue(less, []Value{IntV{BVC(int64(k+off), 64), true}, IntV{BVC(int64(j+off), 64), true}}, gg, c.pos, sig)
+			return r.(BoolV).T
+		})
+		delete(ex.physIndex, st.Arr)
 	}
 	return nil
 }
@@ -654,19 +660,10 @@ func mSortStrings(ex *Exec, c *callCtx) Value {
 	sl := c.args[0].(RefV)
 	for _, a := range sl.Alts {
 		st := a.Tgt.(SliceT)
-		n := st.Cap
-		if ub, ok := termUpper(st.Len); ok && ub < n {
-			n = ub
-		}
-		g := And(c.guard, a.C)
-		for pass := 0; pass < n-1; pass++ {
-			for j := 0; j+1 < n-pass; j++ {
-				in := BVCmp("bvslt", BVC(int64(j+1), 64), st.Len)
-				e := st.Arr.val.(ArrayV).E
-				lt := ILt(e[st.Off+j+1].(StrV).T, e[st.Off+j].(StrV).T)
-				ex.swapCells(st.Arr, st.Off+j, st.Off+j+1, And(g, in, lt))
-			}
-		}
+		ex.sortWindow(st, And(c.guard, a.C), func(k, j int, gg *Term) *Term {
+			e := st.Arr.val.(ArrayV).E
+			return ILt(e[st.Off+k].(StrV).T, e[st.Off+j].(StrV).T)
+		})
 	}
 	return nil
 }
